@@ -49,6 +49,8 @@ func checkC04(c *Ctx, r *Report) {
 	unpackExits(c, r, "C04.R2.unpack-exits", "wire data that is valid for the type (for instance a name that another implementation compressed, which every type must accept on input) is refused")
 	headerWritten(c, r, "C04.R3.header-written", "an owner name is not written (or written as a pointer nobody checked against the 16384 limit)")
 	consumedOffset(c, r, "C04.R4.consumed-offset")
+	r.rule("C04.R2.question-exits", 1, "unpackQuestion refuses only what the name and integer codecs refuse")
+	codecExitsOnly(c, r, "C04.R2.question-exits", "unpackQuestion", 3, "a question name that arrives compressed (the packer compresses the second and later questions) is refused")
 }
 
 // c04R4b: the map accessors index with the key they are given (no normalisation inside find/insert).
